@@ -33,47 +33,73 @@ type c05Case struct {
 }
 
 var c05Values = map[string]any{
-	"u32:0":      uint32(0),
-	"u32:max":    uint32(0xffffffff),
-	"f32:1.5":    float32(1.5),
-	"bool:t":     true,
-	"bool:f":     false,
-	"str:":       "",
-	"str:x":      "x",
-	"str:hello":  "hello, wörld",
-	"i32s:0":     []int32{},
-	"i32s:1":     []int32{-7},
-	"i32s:3":     []int32{1, -2, 3},
-	"u32s:0":     []uint32{},
-	"u32s:3":     []uint32{1, 2, 0xfffffffe},
-	"f32s:0":     []float32{},
-	"f32s:3":     []float32{0.5, -1, 3e38},
-	"strs:0":     []string{},
-	"strs:1":     []string{""},
-	"strs:3":     []string{"a", "", "ccc"},
-	"align:8":    uint32(8),
-	"align:16":   uint32(16),
-	"align:64":   uint32(64),
-	"pad:1":      "p",
-	"pad:2":      "pp",
-	"pad:3":      "ppp",
-	"pad:5":      "ppppp",
-	"pad:7":      "ppppppp",
-	"pad:13":     "ppppppppppppp",
-	"pad:31":     strings.Repeat("p", 31),
+	"u32:0":     uint32(0),
+	"u32:max":   uint32(0xffffffff),
+	"f32:1.5":   float32(1.5),
+	"bool:t":    true,
+	"bool:f":    false,
+	"str:":      "",
+	"str:x":     "x",
+	"str:hello": "hello, wörld",
+	"i32s:0":    []int32{},
+	"i32s:1":    []int32{-7},
+	"i32s:3":    []int32{1, -2, 3},
+	"u32s:0":    []uint32{},
+	"u32s:3":    []uint32{1, 2, 0xfffffffe},
+	"f32s:0":    []float32{},
+	"f32s:3":    []float32{0.5, -1, 3e38},
+	"strs:0":    []string{},
+	"strs:1":    []string{""},
+	"strs:3":    []string{"a", "", "ccc"},
+	"align:8":   uint32(8),
+	"align:16":  uint32(16),
+	"align:64":  uint32(64),
+	"pad:1":     "p",
+	"pad:2":     "pp",
+	"pad:3":     "ppp",
+	"pad:5":     "ppppp",
+	"pad:7":     "ppppppp",
+	"pad:13":    "ppppppppppppp",
+	"pad:31":    strings.Repeat("p", 31),
 }
 
 // (kind, shape) alphabet; byte sizes 1,2,5,18,31,32,33,34,64
 var c05Shapes = []c05Tensor{
-	{Kind: 24, Shape: []uint64{1}},     // I8, 1 byte
-	{Kind: 1, Shape: []uint64{1}},      // F16, 2 bytes
-	{Kind: 24, Shape: []uint64{5}},     // I8, 5 bytes
-	{Kind: 2, Shape: []uint64{32}},     // Q4_0, 18 bytes
-	{Kind: 24, Shape: []uint64{31, 1}}, // I8, 31 bytes, 2-D
-	{Kind: 0, Shape: []uint64{2, 4}},   // F32, 32 bytes, 2-D
-	{Kind: 24, Shape: []uint64{3, 11}}, // I8, 33 bytes, 2-D
-	{Kind: 8, Shape: []uint64{32}},     // Q8_0, 34 bytes
+	{Kind: 24, Shape: []uint64{1}},       // I8, 1 byte
+	{Kind: 1, Shape: []uint64{1}},        // F16, 2 bytes
+	{Kind: 24, Shape: []uint64{5}},       // I8, 5 bytes
+	{Kind: 2, Shape: []uint64{32}},       // Q4_0, 18 bytes
+	{Kind: 24, Shape: []uint64{31, 1}},   // I8, 31 bytes, 2-D
+	{Kind: 0, Shape: []uint64{2, 4}},     // F32, 32 bytes, 2-D
+	{Kind: 24, Shape: []uint64{3, 11}},   // I8, 33 bytes, 2-D
+	{Kind: 8, Shape: []uint64{32}},       // Q8_0, 34 bytes
 	{Kind: 30, Shape: []uint64{2, 4, 4}}, // BF16, 64 bytes, 3-D
+	{Kind: 2, Shape: []uint64{2, 32}},    // Q4_0, 2 rows of one block: 36 bytes (row count not a multiple of the block size)
+	{Kind: 8, Shape: []uint64{3, 32}},    // Q8_0, 3 rows: 102 bytes
+	{Kind: 12, Shape: []uint64{1, 256}},  // Q4_K, one super-block: 144 bytes
+}
+
+// c05RefSize: byte size of a tensor from an independent table (bytes per block / elements per block)
+func c05RefSize(kind uint32, shape []uint64) uint64 {
+	n := uint64(1)
+	for _, d := range shape {
+		n *= d
+	}
+	switch kind {
+	case 0:
+		return n * 4
+	case 1, 30:
+		return n * 2
+	case 24:
+		return n
+	case 2:
+		return n / 32 * 18
+	case 8:
+		return n / 32 * 34
+	case 12:
+		return n / 256 * 144
+	}
+	panic("kind not in the harness table")
 }
 
 var c05Names = []string{"blk.0.a", "blk.1.a", "blk.10.a", "output.weight", "token_embd.weight", "v.x"}
@@ -150,7 +176,10 @@ func c05Check(c c05Case, verbose bool) (clause, msg string) {
 	data := map[string][]byte{}
 	for i, t := range c.Tensors {
 		tt := Tensor{Name: t.Name, Kind: t.Kind, Shape: append([]uint64{}, t.Shape...)}
-		d := c05Data(i, tt.Size())
+		if tt.Size() != c05RefSize(t.Kind, t.Shape) {
+			return "tensor-size", fmt.Sprintf("tensor %s kind %d shape %v: Size() = %d, expected %d bytes", t.Name, t.Kind, t.Shape, tt.Size(), c05RefSize(t.Kind, t.Shape))
+		}
+		d := c05Data(i, c05RefSize(t.Kind, t.Shape))
 		data[t.Name] = d
 		tt.WriterTo = bytes.NewReader(d)
 		ts[i] = tt
@@ -213,6 +242,9 @@ func c05Check(c c05Case, verbose bool) (clause, msg string) {
 		if !reflect.DeepEqual(rev, d.Shape) {
 			return "tensor-shape", fmt.Sprintf("tensor %s shape %v, expected reversed %v", t.Name, d.Shape, rev)
 		}
+		if d.Size() != c05RefSize(t.Kind, t.Shape) {
+			return "tensor-size", fmt.Sprintf("decoded tensor %s kind %d shape %v: Size() = %d, expected %d bytes", t.Name, d.Kind, d.Shape, d.Size(), c05RefSize(t.Kind, t.Shape))
+		}
 		abs := g.Tensors().Offset + d.Offset
 		if verbose {
 			fmt.Printf("tensor %-18s kind %2d size %3d decoded offset %d (abs %d)\n", t.Name, t.Kind, d.Size(), d.Offset, abs)
@@ -234,8 +266,7 @@ func c05Check(c c05Case, verbose bool) (clause, msg string) {
 func c05Sizes(c c05Case) string {
 	var s []string
 	for _, t := range c.Tensors {
-		tt := Tensor{Kind: t.Kind, Shape: t.Shape}
-		s = append(s, fmt.Sprint(tt.Size()))
+		s = append(s, fmt.Sprint(c05RefSize(t.Kind, t.Shape)))
 	}
 	return strings.Join(s, ",")
 }
@@ -244,8 +275,7 @@ func c05Nontrivial(c c05Case) bool {
 	// padding arithmetic is exercised when a tensor of unaligned size is followed by another one,
 	// or a typed array/string value is round-tripped
 	for i, t := range c.Tensors {
-		tt := Tensor{Kind: t.Kind, Shape: t.Shape}
-		if i+1 < len(c.Tensors) && tt.Size()%8 != 0 {
+		if i+1 < len(c.Tensors) && c05RefSize(t.Kind, t.Shape)%8 != 0 {
 			return true
 		}
 	}
@@ -360,10 +390,10 @@ func ZZVerifC05() {
 					// to keep n=4 affordable the last positions draw from a reduced shape alphabet in quick mode
 					shapes := c05Shapes
 					if !thorough && n == 3 && len(ts) == 2 {
-						shapes = c05Shapes[:6]
+						shapes = append(append([]c05Tensor{}, c05Shapes[:5]...), c05Shapes[9])
 					}
 					if thorough && n == 4 && len(ts) >= 2 {
-						shapes = []c05Tensor{c05Shapes[0], c05Shapes[2], c05Shapes[5], c05Shapes[7]}
+						shapes = []c05Tensor{c05Shapes[0], c05Shapes[2], c05Shapes[5], c05Shapes[7], c05Shapes[9]}
 					}
 					for _, sh := range shapes {
 						rec(append(ts, c05Tensor{Name: name, Kind: sh.Kind, Shape: sh.Shape}), used|1<<ni)
